@@ -28,7 +28,8 @@ E1_SCENARIOS_QUICK = [
     "S1-put-get-get", "S2-ac-overwrite", "S3-evict-vs-read", "S4-corrupt-get-get",
     "S5-corrupt-get-put", "S6-corrupt-get-evict-reput", "S7-three-puts-tight", "S10-contains-vs-overwrite",
     "S11-commit-refused-by-reservation", "S12-get-vs-two-overwrites", "S13-get-vs-reupload-other-format",
-    "S14-unreserved-overwrite-under-reservation",
+    "S14-unreserved-overwrite-under-reservation", "S15-slowpath-get-vs-overwrite-vs-eviction",
+    "S16-semaphore-vs-metrics-poll",
 ]
 ZSTD_ONLY = {"S4-corrupt-get-get", "S5-corrupt-get-put", "S6-corrupt-get-evict-reput"}
 
@@ -128,7 +129,7 @@ def check_C03(ctx):
     th = ctx.thorough()
     jobs = e2lru_jobs(ctx, "C03", 6 if th else 4, 1500 if th else 300)
     jobs += e2cache_jobs(ctx, "C03", 4 if th else 3, 1500 if th else 300, 8 if th else 2, proxies=("0", "1", "2"))
-    jobs += e1_jobs(ctx, "C03", ["S3-evict-vs-read", "S5-corrupt-get-put", "S7-three-puts-tight", "S11-commit-refused-by-reservation", "S14-unreserved-overwrite-under-reservation"], 3 if th else 2, 2 if th else 1, 1200 if th else 300, oracle="C03@")
+    jobs += e1_jobs(ctx, "C03", ["S3-evict-vs-read", "S5-corrupt-get-put", "S7-three-puts-tight", "S11-commit-refused-by-reservation", "S14-unreserved-overwrite-under-reservation", "S12-get-vs-two-overwrites", "S15-slowpath-get-vs-overwrite-vs-eviction"], 3 if th else 2, 2 if th else 1, 1200 if th else 300, oracle="C03@")
     return dict(level="model_checking", jobs=jobs,
                 rule="explicit-state BFS over operation sequences on the real SizedLRU and on a real disk cache (accounting equation, reserved==0, Stats()==index on every transition) plus all preemption-bounded schedules of three concurrent scenarios (equation at every scheduling point); distinct = distinct canonical states / distinct observed histories; environment deviation in the alphabet: uploads whose file cannot be created (os.OpenFile fails, injected through the os shim); E2-cache also from a preloaded backend (blobs that exist only in the backend)",
                 assumptions=E2_ASSUME + E1_ASSUME)
@@ -152,6 +153,13 @@ def check_C05(ctx):
     th = ctx.thorough()
     jobs = e2lru_jobs(ctx, "C05", 6 if th else 4, 1500 if th else 300, hard_extras=(-1,))
     jobs += e2cache_jobs(ctx, "C05", 4 if th else 3, 1500 if th else 300, 8 if th else 2, maxblocks=(4, 3) if th else (4,))
+    # "a use is ... any lookup that hit (GET, HEAD, FindMissingBlobs, ActionResult dependency check)": the last one
+    # is exercised through the servers: after a validated action-cache hit every referenced local blob is more recent
+    # than a control blob touched just before
+    for mode in ("zstd", "uncompressed"):
+        for be in ("0", "1"):
+            jobs.append(Job(ctx.bin(GRID), "TestC06", name="C05:ac-hit-is-a-use/%s/backend%s" % (mode, be), timeout=600,
+                            env={"VERIF_PARAM_MODE": mode, "VERIF_PARAM_BACKEND": be, "VERIF_PARAM_ONLY": "recency", "VERIF_PARAM_PROPERTY": "C05"}))
     return dict(level="model_checking", jobs=jobs,
                 rule="explicit-state BFS over sequential histories on the real SizedLRU and a real disk cache against a reference recency model: victims are a least-recently-used tail, not more than needed, none when it fits, accepted upload present, oversize rejected without eviction, every kind of hit refreshes recency",
                 assumptions=E2_ASSUME)
@@ -186,7 +194,7 @@ def check_C02(ctx):
     for cfg in CONFIGS:
         jobs.append(Job(b, "TestC02BatchLists", name="C02:batchlists/" + cfg, timeout=2400, env={"VERIF_PARAM_CONFIG": cfg, "GOMAXPROCS": "4"}))
     return dict(level="exploration", jobs=jobs,
-                rule="(i) full product writer (mode,impl) x reader (mode,impl, restarted) x blob size on 4 KiB / k MiB edges x content kind x read path x offset class x read_limit class; (ii) files laid out by the independent format writer with 4/8 KiB chunks: every offset 0..n on both ByteStream paths; (iii) the empty blob on every path against an empty cache; multi-digest BatchReadBlobs: every sequence up to length 3 (4 thorough) over {present, second present (1 MiB+3), absent, empty blob, present hash with size+1, previous again}: every response right for the digest it names, every digest answered as often as asked; E1 scenario S13 (blob written under the other storage mode in an earlier life of the directory, Get and zstd Get at offset 1 against a re-upload, all schedules up to the preemption bound); non-trivial = distinct successful reads whose bytes were compared",
+                rule="(i) full product writer (mode,impl) x reader (mode,impl, restarted) x blob size on 4 KiB / k MiB edges x content kind x read path x offset class x read_limit class; (ii) files laid out by the independent format writer with 4/8 KiB chunks: every offset 0..n on both ByteStream paths; (iii) the empty blob on every path against an empty cache; multi-digest BatchReadBlobs: every sequence up to length 3 (4 thorough) over {present, second present (1 MiB+3), absent, empty blob, present hash with size+1, previous again}: every response right for the digest it names, every digest answered as often as asked; E1 scenario S13 (blob written under the other storage mode in an earlier life of the directory, Get and zstd Get at offset 1 against a re-upload, all schedules up to the preemption bound); two readers alive at once: every order of {open A, open B, drain A, drain B}, plain/zstd, unaligned offsets; non-trivial = distinct successful reads whose bytes were compared",
                 assumptions=["zstd responses are decoded with klauspost/compress and libzstd; both must agree",
                              "in-process servers (httptest recorder / bufconn)",
                              "contents: pseudo-random, zeros, repetitive text; sizes are boundary-chosen"])
@@ -243,10 +251,15 @@ def check_C10(ctx):
     for mode in ("zstd", "uncompressed"):
         jobs.append(Job(g, "TestC10", name="C10:lists/" + mode, timeout=900, env={"VERIF_PARAM_MODE": mode}))
         jobs.append(Job(g, "TestC10Backend", name="C10:backend/" + mode, timeout=900, env={"VERIF_PARAM_MODE": mode}))
+    # existence checks through the REAL backend clients (httpproxy in front of a plain HTTP store, grpcproxy in
+    # front of a second cache): one hash with the stored size and with size+-1
+    for via in ("http", "grpc"):
+        for mode in ("zstd", "uncompressed"):
+            jobs.append(Job(g, "TestC12Chain", name="C10chain:%s/%s" % (via, mode), timeout=600, env={"VERIF_PARAM_VIA": via, "VERIF_PARAM_MODE": mode, "VERIF_PARAM_PROPERTY": "C10"}))
     jobs += e1_jobs(ctx, "C10", ["S9-findmissing-vs-puts"], 3 if th else 2, 4 if th else 2, 1200 if th else 300, oracle="C10")
     jobs += e2cache_jobs(ctx, "C10", 4 if th else 3, 1200 if th else 300, 2, proxies=("0", "1"))
     return dict(level="exploration", jobs=jobs,
-                rule="request lists of every length 0..45 with a single missing / single present / size-mismatched / empty digest at every index, all 2^8 (2^10 thorough) present/absent patterns in windows straddling the internal batch boundaries at 20 and 40, duplicates adjacent and 21 apart; with a backend every assignment of {local, backend only, absent, backend over max_proxy_blob_size, backend with another size}^4 (^5) at the list head and across the boundary; all <=2/3-preemption schedules of FindMissing over 25 digests against two concurrent uploads; FindMissing inside BFS operation sequences; lists naming one hash with two of {stored size, size+1, size-1} in every ordered pair at every position with gaps 1/2/19/20/21, also where the right size is backend-only; non-trivial = distinct request shapes answered exactly",
+                rule="request lists of every length 0..45 with a single missing / single present / size-mismatched / empty digest at every index, all 2^8 (2^10 thorough) present/absent patterns in windows straddling the internal batch boundaries at 20 and 40, duplicates adjacent and 21 apart; with a backend every assignment of {local, backend only, absent, backend over max_proxy_blob_size, backend with another size}^4 (^5) at the list head and across the boundary; all <=2/3-preemption schedules of FindMissing over 25 digests against two concurrent uploads; FindMissing inside BFS operation sequences; lists naming one hash with two of {stored size, size+1, size-1} in every ordered pair at every position with gaps 1/2/19/20/21, also where the right size is backend-only; existence through the real backend clients (httpproxy before a plain HTTP store, grpcproxy before a second cache): sizes n, n+1, n-1; non-trivial = distinct request shapes answered exactly",
                 assumptions=["through the real gRPC handler over bufconn; backend = scriptable cache.Proxy answering synchronously",
                              "the fail-fast variant of the join (used by action-cache validation) is covered under C06"] + E1_ASSUME)
 
@@ -278,7 +291,7 @@ def check_C12(ctx):
         for mode in ("zstd", "uncompressed"):
             jobs.append(Job(g, "TestC12Chain", name="C12chain:%s/%s" % (via, mode), timeout=600, env={"VERIF_PARAM_VIA": via, "VERIF_PARAM_MODE": mode}))
     return dict(level="fault_enumeration", jobs=jobs,
-                rule="seam level: kind {CAS,AC,RAW} x storage mode x size known/unknown x plain/zstd read x backend deviation {none, error, not found, nil reader, size metadata +1/-1/-1/0/over max_proxy_blob_size, one-byte reads, cancelled context, stream error at EVERY byte offset, clean EOF at EVERY byte offset}; 1 deviation quick, pairs (second read deviates too) thorough; then a local-only read with the backend emptied (poisoning) and the quiescence invariants; plus explicit-state BFS over operation sequences with a backend (write-through exactly once, decodable; read-through; faults mixed into sequences); fault class oversize: the object really is larger than max_proxy_blob_size (limit = size-1, size/2): never served, never cached; HTTP chain: the stored object's own header lies about the logical size (0, -1, +-1; short and 4 MiB bodies) - leak oracles only (the backend is trusted for content); faithful backend, reads at offsets 1, n/2, n-1 (plain and zstd), first through the backend, then the local hit; non-trivial = distinct fault cells completed with the oracle checked",
+                rule="seam level: kind {CAS,AC,RAW} x storage mode x size known/unknown x plain/zstd read x backend deviation {none, error, not found, nil reader, size metadata +1/-1/-1/0/over max_proxy_blob_size, one-byte reads, cancelled context, stream error at EVERY byte offset, clean EOF at EVERY byte offset}; 1 deviation quick, pairs (second read deviates too) thorough; then a local-only read with the backend emptied (poisoning) and the quiescence invariants; plus explicit-state BFS over operation sequences with a backend (write-through exactly once, decodable; read-through; faults mixed into sequences); fault class oversize: the object really is larger than max_proxy_blob_size (limit = size-1, size/2): never served, never cached; HTTP chain: the stored object's own header lies about the logical size (0, -1, +-1; short and 4 MiB bodies) - leak oracles only (the backend is trusted for content); faithful backend, reads at offsets 1, n/2, n-1 (plain and zstd), first through the backend, then the local hit; real backend clients: FindMissingBlobs with sizes n, n+-1; a backend configured not to upload (num_uploaders 0): 20 uploads leave no descriptor open; non-trivial = distinct fault cells completed with the oracle checked",
                 assumptions=["the backend is trusted for content it completely delivers (no bit flips)",
                              "scriptable in-memory cache.Proxy at the seam the real proxies implement; HTTP/gRPC proxy implementations are exercised by the chained-cache part",
                              "objects are 60-150 logical bytes so that every byte offset of the stored form is enumerated"] + E2_ASSUME[:2])
@@ -291,7 +304,7 @@ def check_C14(ctx):
         for part in ("digests", "names", "http", "writes", "space", "aborts", "origin", "files"):
             jobs.append(Job(g, "TestC14", name="C14:%s/%s" % (part, mode), timeout=2400, env={"VERIF_PARAM_MODE": mode, "VERIF_PARAM_PART": part, "GOMAXPROCS": "4"}))
     return dict(level="exploration", jobs=jobs,
-                rule="small-scope structural enumeration through the real handlers: 12 digest shapes (nil, empty, present, absent, empty blob, negative / huge size, four malformed hashes, zero size with a hash) at every digest position of every gRPC request type (pairs for SpliceBlob), FetchBlob uri x qualifier shapes, stored blobs (9 Directory, 5 Tree, 4 ActionResult shapes incl. nil digests and garbage) read back through GetTree / GetActionResult / HTTP; all token sequences up to length 4 (5 thorough) over 14 resource-name tokens for ByteStream.Read (x offsets, limits), Write and QueryWriteStatus; 21 URL paths x 9 HTTP methods; PUT header products (size header x encoding x content type x content length); all ByteStream.Write message sequences up to length 3 over 9 message kinds with a client abort after every prefix; uploads refused for lack of space through every write path (larger than max_size / space held by other requests' reservations / SpliceBlob whose chunks fit but whose result does not) x hard limit on/off with the leak oracle after every cell; downloads the client abandons (ByteStream.Read identity/zstd at offsets 0 and 1, HTTP GET plain/zstd over a real connection; one-chunk and multi-chunk blobs; before / after the first piece) with the garbage collector off, so a file closed only by its finalizer counts as left behind; FetchBlob against an origin answering 200/403/404/500/503 x {no body, 10 B, 100 KiB} x {Content-Length, chunked} x checksum qualifier {none, matching, other}: after each cell the origin holds no connection the cache has not given back; ill-formed cas.v2 files in the directory (19 header damages: chunk size, logical size, offset count, offsets, compression type, truncations, garbage chunk data) read through 6 read paths at offsets 0, 1, 1 MiB, 1 MiB+1, n-1 plus FindMissingBlobs; non-trivial = distinct cells that completed",
+                rule="small-scope structural enumeration through the real handlers: 12 digest shapes (nil, empty, present, absent, empty blob, negative / huge size, four malformed hashes, zero size with a hash) at every digest position of every gRPC request type (pairs for SpliceBlob), FetchBlob uri x qualifier shapes, stored blobs (9 Directory, 5 Tree, 4 ActionResult shapes incl. nil digests and garbage) read back through GetTree / GetActionResult / HTTP; all token sequences up to length 4 (5 thorough) over 14 resource-name tokens for ByteStream.Read (x offsets, limits), Write and QueryWriteStatus; 21 URL paths x 9 HTTP methods; PUT header products (size header x encoding x content type x content length); all ByteStream.Write message sequences up to length 3 over 9 message kinds with a client abort after every prefix; uploads refused for lack of space through every write path (larger than max_size / space held by other requests' reservations / SpliceBlob whose chunks fit but whose result does not) x hard limit on/off with the leak oracle after every cell; downloads the client abandons (ByteStream.Read identity/zstd at offsets 0 and 1, HTTP GET plain/zstd over a real connection; one-chunk and multi-chunk blobs; before / after the first piece) with the garbage collector off, so a file closed only by its finalizer counts as left behind; FetchBlob against an origin answering 200/403/404/500/503 x {no body, 10 B, 100 KiB} x {Content-Length, chunked} x checksum qualifier {none, matching, other}: after each cell the origin holds no connection the cache has not given back; ill-formed cas.v2 files in the directory (19 header damages: chunk size, logical size, offset count, offsets, compression type, truncations, garbage chunk data) read through 6 read paths at offsets 0, 1, 1 MiB, 1 MiB+1, n-1 plus FindMissingBlobs; Write streams ending with finish_write that the client does not half-close; non-trivial = distinct cells that completed",
                 assumptions=["bounded-exhaustive over message shapes and token sequences (small-scope hypothesis), not byte-level fuzzing",
                              "gRPC handler panics are caught by the harness's interceptor and reported (the real server has no recovery: a panic there terminates the process)",
                              "leaks: goroutines inside repository request code, reserved bytes, directory==index and open descriptors are compared with the baseline every 64 cells and at the end; waits are by state with a 20 s cap"])
@@ -313,7 +326,7 @@ def check_C16(ctx):
     jobs = [Job(g, "TestC16", name="C16:%s#%d" % (mode, sh), timeout=1200, env={"VERIF_PARAM_MODE": mode, "VERIF_SHARD": "%d/%d" % (sh, shards), "GOMAXPROCS": "4"})
             for mode in ("zstd", "uncompressed") for sh in range(shards)]
     return dict(level="exploration", jobs=jobs,
-                rule="ByteStream.Write streams over the real handler: {identity, zstd} x blob present/absent x finish_write {last, none, on the first of several messages} x later resource names {omitted, repeated, changed} x first write_offset {0,1} x declared size {n, n-1, n+1} plus six resource-name shapes; for the base variants ALL compositions of a 6-byte payload into 1..4 (5 thorough) messages incl. empty ones, for deviating variants a spread; each followed by FindMissingBlobs and QueryWriteStatus; blob present only in a proxy backend x backend reports exact / unknown (-1) size x identity/zstd x all compositions into <=3 messages x complete / first-message-only stream; instance-name shapes with segments ending in 'uploads' / containing 'blobs', unicode; non-trivial = distinct (variant, composition) cells",
+                rule="ByteStream.Write streams over the real handler: {identity, zstd} x blob present/absent x finish_write {last, none, on the first of several messages} x later resource names {omitted, repeated, changed} x first write_offset {0,1} x declared size {n, n-1, n+1} plus six resource-name shapes; for the base variants ALL compositions of a 6-byte payload into 1..4 (5 thorough) messages incl. empty ones, for deviating variants a spread; each followed by FindMissingBlobs and QueryWriteStatus; blob present only in a proxy backend x backend reports exact / unknown (-1) size x identity/zstd x all compositions into <=3 messages x complete / first-message-only stream; instance-name shapes with segments ending in 'uploads' / containing 'blobs', unicode; streams the client does NOT half-close: finish_write on the last message (all compositions into <=3 messages), and the first message only when the blob exists; non-trivial = distinct (variant, composition) cells",
                 assumptions=["through the real gRPC server over bufconn with the real client stream API",
                              "the interleaving of the handler's three goroutines is whatever the runtime picks; the oracle only contains outcomes that do not depend on it"])
 
@@ -380,7 +393,7 @@ def check_C08(ctx):
                                 env={"VERIF_PARAM_HISTORY": h, "VERIF_PARAM_MODE": mode, "VERIF_BUDGET_S": str(budget),
                                      "VERIF_SHARD": "%d/%d" % (sh, shards), "GOMAXPROCS": "2"}))
     return dict(level="fault_enumeration", jobs=jobs,
-                rule="for each history x storage mode before x remover policy: the directory at every scheduling point of the real write path (file-namespace operations, every Read of the uploader's reader or backend stream, before commit, before every background unlink) is a crash image; each is expanded with every torn length of every file written since the previous point and every partial in-place overwrite (chunk-table rewrite); every distinct image is restarted with the real disk.New in both storage modes and every key is read with known/unknown size, plain and zstd; history H6: a 100 KiB action-cache value handed over as one in-memory buffer (reader offering WriteTo, as the servers do); every violation is classed as a crash state BETWEEN two file-system steps (empty file / partial value) or INSIDE one write step (power-loss model, beyond the stated crash points); non-trivial = distinct (history, modes, kill point) images that restarted and passed the oracle",
+                rule="for each history x storage mode before x remover policy: the directory at every scheduling point of the real write path (file-namespace operations, every Read of the uploader's reader or backend stream, before commit, before every background unlink) is a crash image; each is expanded with every torn length of every file written since the previous point and every partial in-place overwrite (chunk-table rewrite); every distinct image is restarted with the real disk.New in both storage modes and every key is read with known/unknown size, plain and zstd; history H6: a 100 KiB action-cache value handed over as one in-memory buffer (reader offering WriteTo, as the servers do); every violation is classed as a crash state BETWEEN two file-system steps (empty file / partial value) or INSIDE one write step (power-loss model, beyond the stated crash points); action-cache values are real serialised ActionResults and the validating read path (GetValidatedActionResult) is asked at every crash state between two steps; non-trivial = distinct (history, modes, kill point) images that restarted and passed the oracle",
                 assumptions=["process kill, not power loss: bytes written before the kill are on disk in order; torn writes within a file are modelled as prefixes / partial in-place overwrites",
                              "file access and modification times of the image are restored on the restart copy",
                              "histories are sequential; the background remover runs either as late or as early as possible (two policies)"])
